@@ -553,6 +553,11 @@ func (fi *funcInstr) goStmt(g *ast.GoStmt) ast.Stmt {
 	pre = append(pre, &ast.AssignStmt{Lhs: []ast.Expr{f}, Tok: token.DEFINE, Rhs: []ast.Expr{call.Fun}})
 	var args []ast.Expr
 	for i, a := range call.Args {
+		// nil and constants are not evaluated at the go statement: use them in place
+		if tv, ok := in.pkg.TypesInfo.Types[a]; ok && (tv.IsNil() || tv.Value != nil) {
+			args = append(args, a)
+			continue
+		}
 		id := ast.NewIdent(fmt.Sprintf("__goa%d", i))
 		pre = append(pre, &ast.AssignStmt{Lhs: []ast.Expr{id}, Tok: token.DEFINE, Rhs: []ast.Expr{a}})
 		args = append(args, id)
